@@ -1,11 +1,11 @@
 """C07 — a truncated file is never mistaken for a valid pose."""
-import io
-from .. import posecase as pc, refenc
+import io, json, os, subprocess, sys
+from .. import core, posecase as pc, refenc
 from . import c03
 
 LEAN_MODULES = ["PoseVerif.Props.C07"]
 RULE = ("written files of the C01 generator; small files: every cut offset, large files: every field boundary ±1 and sampled offsets; each prefix read as bytes and as a stream, "
-        "with the header cache empty / holding this header / holding a foreign header; windowed stream reads on prefixes compared with the intact file; random suffixes appended; "
+        "with the header cache empty / holding this header / holding a foreign header; the same cuts read into torch bodies and (child process) tensorflow bodies from bytes, a stream and a windowed stream; windowed stream reads on prefixes compared with the intact file; random suffixes appended; "
         "non-trivial = distinct (file, offset, reader, cache, window)")
 ASSUMPTIONS = ["a stream read that returns fewer bytes than requested models the truncated file; disk-level torn writes inside a byte are not modelled"]
 
@@ -51,6 +51,7 @@ def run(ctx):
             files.append((c, "large"))
     foreign = refenc.v02(pc.gen_pose(rng, frames=1, people=1, ncomps=1))
     reqs, meta = [], []
+    tf_jobs = []
     for case, kind in files:
         raw = refenc.v02(case)
         bounds, total = field_offsets(case)
@@ -99,7 +100,34 @@ def run(ctx):
                 ctx.evaluated((raw, "extra", extra, reader)); ctx.count("trailing:" + reader)
                 if res[0] != "ok" or pc.diff(intact, res[1]):
                     ctx.violation("appended bytes change what is read", {"hex": raw.hex() if len(raw) < 3000 else None, "extra": extra.hex()[:200], "reader": reader}, {}, True, size=len(raw))
+        # the other body classes read through their own unpack routines: every cut (small files) / the field boundaries (large) into torch in-process, into tensorflow in a child
+        other_cuts = cuts if kind == "small" else cuts[:: max(1, len(cuts) // 40)]
+        from pose_format.torch.pose_body import TorchPoseBody
+        for cut in other_cuts:
+            for source in ("bytes", "stream", "window"):
+                PoseHeaderCache.clear_cache()
+                try:
+                    if source == "bytes": Pose.read(raw[:cut], TorchPoseBody)
+                    elif source == "stream": Pose.read(io.BytesIO(raw[:cut]), TorchPoseBody)
+                    else: Pose.read(io.BytesIO(raw[:cut]), TorchPoseBody, start_frame=0)
+                    ok = True
+                except Exception:
+                    ok = False
+                ctx.evaluated((raw, cut, "torch", source)); ctx.count("full:torch-body:" + source)
+                if ok:
+                    ctx.violation("a proper prefix of a file was read as a valid pose", {"hex": raw.hex() if len(raw) < 3000 else None, "cut": cut, "reader": source, "body": "torch"}, {}, True, size=len(raw), signature={"body": "torch"})
+        tf_jobs.append({"hex": raw.hex(), "cuts": other_cuts})
         ctx.sample({"file_bytes": len(raw), "cuts": len(cuts), "kind": kind})
+    # tensorflow bodies, in a child process
+    payload = "".join(json.dumps(j) + "\n" for j in tf_jobs)
+    r = subprocess.run([sys.executable, "-W", "ignore", "-m", "harness.tfread"], input=payload, capture_output=True, text=True, timeout=3000, cwd=core.VERIF, env=dict(os.environ, TF_CPP_MIN_LOG_LEVEL="3"))
+    lines = [l for l in r.stdout.splitlines() if l.startswith("{")]
+    if len(lines) != len(tf_jobs):
+        raise core.InfraError("tensorflow child returned %d of %d results: %s" % (len(lines), len(tf_jobs), r.stderr[-400:]))
+    for job, line in zip(tf_jobs, lines):
+        ctx.count("full:tf-body", 3 * len(job["cuts"]))
+        for cut, source in json.loads(line)["accepted"]:
+            ctx.violation("a proper prefix of a file was read as a valid pose", {"hex": job["hex"] if len(job["hex"]) < 6000 else None, "cut": cut, "reader": source, "body": "tensorflow"}, {}, True, size=len(job["hex"]) // 2, signature={"body": "tensorflow"})
     # correspondence with the model
     outs = ctx.driver.run(reqs)
     for (what, raw, cut, reader, cache_name, res), mo in zip(meta, outs):
